@@ -522,6 +522,35 @@ def stream_struct(tier, seed):
         lines.append(P("robig.full", "block", data))
         lines.append(P("robig.b777", "block", data, 0, 777))
         lines.append(P("robig.p%d" % (len(data) - 3), "block", data[:-3]))
+    # mined numbers too large for the model side (70 000 < v <= 8 000 000), as TOTAL INPUT LENGTH of a block with
+    # trailing bytes, of a block made of one large transaction, and of a transaction: implementation + reference
+    # decoder only (id prefix "ro")
+    budget = (80 if quick else 300) * 1000000
+    for v in sorted(mined_values(limit=8000000), reverse=True):
+        if v <= 70000 or 3 * v > budget:
+            continue
+        budget -= 3 * v
+        blk = btc.rand_block(rng, ntx=2)
+        bb, _ = btc.block_bytes(blk)
+        gid = "rolen%d" % v
+        meta[gid] = {"entry": "block", "tag": "mined:hugetotal", "len": v}
+        lines.append(P(gid + ".full", "block", bb + bytes([0x6b]) * (v - len(bb))))
+        tx = btc.rand_tx(rng, nin=1, nout=1, segwit=(v % 2 == 0))
+        tx["outs"][0]["spk"] = b""
+        base = len(btc.tx_bytes(tx)[0])
+        for extra in (0, 2, 4):
+            tx["outs"][0]["spk"] = bytes([0x51]) * (v - base - extra)
+            tb, _ = btc.tx_bytes(tx)
+            if len(tb) == v:
+                gid = "rotx%d" % v
+                meta[gid] = {"entry": "transaction", "tag": "mined:hugetotal", "len": v}
+                lines.append(P(gid + ".full", "transaction", tb + b"\x01\x02\x03"))
+                blk1 = {"header": btc.rand_header(rng), "txs": [tx]}
+                b1, _ = btc.block_bytes(blk1)
+                gid = "roblk%d" % v
+                meta[gid] = {"entry": "block", "tag": "mined:hugetotal", "len": len(b1)}
+                lines.append(P(gid + ".full", "block", b1 + b"\x09"))
+                break
     # outpoints: boundary indices with null / non-null ids (coinbase-looking shapes)
     for vout in (0, 1, 255, 256, 0x7FFFFFFF, 0x80000000, 0xFFFFFFFE, 0xFFFFFFFF):
         for txid in (bytes(32), btc.rand_bytes(rng, 32), b"\xff" * 32):
